@@ -27,6 +27,14 @@ are logged under the pseudo routine `mainR`; `Op.throw` (exception leaves the ro
 `Op.rcleanup` (`cleanup()` inside a routine) abort too.  `Semaphore::count_` is a natural number here (initial
 count k >= 0); its `int` width is modelled in SemWidth.lean.
 
+Round 5: `Op.resume` = `Scheduler::resume(token)` called from inside a routine (also on the running routine itself);
+`MainOp.defineR` = a script whose `lock m` / `unlock m` are the constructor / scope end of a `Mutex::Locker` (RAII): when
+the entry function returns (end of script, `exit`) the open scopes are left innermost first (`unwind`, each destructor is
+the `unlock` it calls and is logged as such); the constructor ignores the result of `lock()`, so RAII scripts never return
+"because lock failed" (xfail = false).  `MainOp.stack` = the `stack_size` argument of the following `create()` calls:
+`effStack` is the clamp of patches/C18-08 (`fixed`), `corrupt` records a first frame that does not fit (code as found).
+Compact.lean gives an array-backed execution of this model proved equal to it (what the driver runs).
+
 The event loop's run-next queue is modelled by the number `pend` of queued
 `Scheduler::schedule` tasks: every `makeRoutineReady` posts one, a loop pass runs the ones
 queued when the pass started.
@@ -41,6 +49,7 @@ inductive Op where
   | post (b : Nat) | bwait (b : Nat)
   | cadd (k v : Nat) | cwait (k : Nat) | cpost (k v : Nat)
   | join (t : Nat) | create (d : Nat) (now : Bool) | cancel (t : Nat) | exit
+  | resume (t : Nat)                -- `Scheduler::resume(token)` called from inside a routine (round 5)
   | throw                           -- the routine body throws: nothing catches it below `Routine::mainEntry`
   | rcleanup                        -- `Scheduler::cleanup()` called from inside a routine
 deriving DecidableEq, Repr
@@ -73,6 +82,9 @@ structure Routine where
   inOp     : Bool := false
   done     : Nat := 0               -- operations completed (observable: script position)
   wepoch   : Nat := 0               -- ghost: broadcast epoch at registration
+  raii     : Bool := false          -- round 5: every `lock m` of the script is `Mutex::Locker l(m)`, `unlock m` ends the innermost scope
+  orig     : List Op := []          -- the script the routine was created with (the executed prefix is `orig.take done`)
+  ss       : Nat := 0               -- effective stack size in bytes (`Routine::Routine`, after the clamp of patches/C18-08)
 deriving Repr
 
 structure Chan where
@@ -123,6 +135,9 @@ structure State where
   aborted : Bool := false           -- the process called `abort()` (failed TBOX_ASSERT / std::terminate)
   abortAt : Nat := 0                -- ghost: length of `log` at the first abort
   tags   : List String := []        -- branch tags for the distribution statistics (never read by the model)
+  rdefs  : List Nat := []           -- round 5: indices of the definitions whose scripts use `Mutex::Locker` (RAII)
+  stackReq : Nat := 262144          -- round 5: the `stack_size` argument of the next `create()` calls (bytes)
+  corrupt : Bool := false           -- round 5: `makecontext` wrote outside the stack block (code as found, stack_size too small)
 
 def State.R (s : State) (r : Nat) : Routine := s.rts r
 def State.setR (s : State) (r : Nat) (x : Routine) : State :=
@@ -167,6 +182,16 @@ def wakeAll (s : State) : List Nat → State
   | [] => s
   | t :: ts => wakeAll (resume s t).1 ts
 
+/-- smallest stack `Routine::Routine` allocates (patches/C18-08: `ROUTINE_STACK_MIN_SIZE`) -/
+def stackMin : Nat := 8192
+
+/-- the clamp of `Routine::Routine`: `if (ss < ROUTINE_STACK_MIN_SIZE) ss = ROUTINE_STACK_MIN_SIZE` (as found: none) -/
+def effStack (fixed : Bool) (req : Nat) : Nat := if fixed ∧ req < stackMin then stackMin else req
+
+/-- bytes `makecontext` + the entry frame of `RoutineMainEntry` write at the top of the block before any user code
+runs (x86-64: return address, link pointer, alignment; observed with memcheck: 16-24 bytes below a `malloc(0)` block) -/
+def frameMin : Nat := 32
+
 /-- `Cabinet::alloc` + `new Routine` -/
 def createCore (s : State) (d : Nat) : State :=
   let df := s.defs.getD d (false, [])
@@ -174,8 +199,11 @@ def createCore (s : State) (d : Nat) : State :=
   let pcf : Nat × List (Option Nat) × List Nat := match s.free with
     | p :: f => (p, s.cells.set p (some r), f)
     | [] => (s.cells.length, s.cells ++ [some r], [])
+  let rai := decide (d ∈ s.rdefs)
   { s with n := r + 1, cells := pcf.2.1, free := pcf.2.2,
-           rts := fun i => if i = r then { script := df.2, xfail := df.1, pos := pcf.1 } else s.rts i }
+           corrupt := s.corrupt || decide (effStack s.fixed s.stackReq < frameMin),
+           rts := fun i => if i = r then { script := df.2, xfail := df.1 && !rai, pos := pcf.1, raii := rai, orig := df.2,
+                                           ss := effStack s.fixed s.stackReq } else s.rts i }
 
 /-- `Scheduler::create` -/
 def create (s : State) (d : Nat) (now : Bool) : State :=
@@ -326,6 +354,9 @@ def execOp (s : State) (me : Nat) (op : Op) (rest : List Op) : State × Ctl :=
   | .cancel t =>
       let (s1, b) := cancelR s t
       finish s1 me op rest (if b then .ok else .fail)
+  | .resume t =>
+      let (s1, b) := resume s t
+      finish s1 me op rest (if b then .ok else .fail)
   | .exit => (s, .quit)
   -- an exception leaving `entry(scheduler)` unwinds to the bottom of the makecontext stack: std::terminate
   | .throw => (abort s, .quit)
@@ -336,14 +367,34 @@ def execOp (s : State) (me : Nat) (op : Op) (rest : List Op) : State × Ctl :=
 def die (s : State) (me : Nat) : State :=
   s.setR me { s.R me with state := .dead, script := [], inOp := false }
 
+/-- the `Mutex::Locker` objects alive after the executed prefix of a RAII script, innermost first:
+`lock m` constructs one, `unlock m` ends the innermost scope when that scope is the one of `m` -/
+def openLk : List Nat → List Op → List Nat
+  | st, [] => st
+  | st, .lock m :: l => openLk (m :: st) l
+  | m' :: st, .unlock m :: l => if m = m' then openLk st l else openLk (m' :: st) l
+  | st, _ :: l => openLk st l
+
+/-- `~Locker()` of every live Locker, innermost first: each is `m_.unlock()` -/
+def unwindList (me : Nat) : List Nat → State → State
+  | [], s => s
+  | m :: ms, s => unwindList me ms (execOp s me (.unlock m) []).1
+
+/-- the entry function of a RAII script returns (end of script, `exit`): the scopes are left -/
+def unwind (s : State) (me : Nat) : State :=
+  if (s.R me).raii then unwindList me (openLk [] ((s.R me).orig.take (s.R me).done)) s else s
+
+/-- the entry function returns -/
+def fin (s : State) (me : Nat) : State := die (unwind s me) me
+
 /-- run routine `me` until it switches back to the main context or returns -/
 def runOps (me : Nat) : List Op → State → State
-  | [], s => die s me
+  | [], s => fin s me
   | op :: rest, s =>
       match execOp s me op rest with
       | (s1, .next) => runOps me rest s1
       | (s1, .block) => s1
-      | (s1, .quit) => die s1 me
+      | (s1, .quit) => fin s1 me
 
 /-- `Scheduler::switchToRoutine` -/
 def switchTo (s : State) (r : Nat) : State :=
@@ -462,6 +513,8 @@ def mainCall (s : State) : Op → State
 inductive MainOp where
   | call (op : Op)
   | define (xfail : Bool) (ops : List Op)
+  | defineR (ops : List Op)         -- round 5: a script whose `lock m … unlock m` are `{ Mutex::Locker l(m); … }` scopes
+  | stack (bytes : Nat)             -- round 5: the `stack_size` argument of the `create()` calls that follow
   | new (d : Nat) (now : Bool)
   | resume (r : Nat)
   | cancel (r : Nat)
@@ -472,6 +525,8 @@ deriving Repr
 def applyMain (s : State) : MainOp → State
   | .call op => mainCall s op
   | .define xf ops => { s with defs := s.defs ++ [(xf, ops)] }
+  | .defineR ops => { s with defs := s.defs ++ [(false, ops)], rdefs := s.rdefs ++ [s.defs.length] }
+  | .stack b => { s with stackReq := b }
   | .new d now => create s d now
   | .resume r => (resume s r).1
   | .cancel r => (cancelR s r).1
